@@ -235,6 +235,23 @@ func CodecCorpus(packageRoot string, seed int64, nRandom int) *Schema {
 	s.Add(&Named{Ident: Ident{"Mixed", ns2}, Kind: "record", Includes: []Ident{{"Other", ns2}}, Fields: []Field{
 		{Name: "c2", Type: R(ns2, "Color")}, {Name: "cs", Type: A(R(ns, "Color")), Optional: true},
 	}})
+	// includes across namespaces: the included record (with defaults, required fields) lives in another generated package
+	s.Add(&Named{Ident: Ident{"IncCross", ns2}, Kind: "record", Includes: []Ident{{"WithDefaults", ns}}, Fields: []Field{
+		{Name: "own", Type: P("int32"), Default: sp("5")}, {Name: "o", Type: R(ns2, "Other"), Optional: true},
+	}})
+	s.Add(&Named{Ident: Ident{"IncCross2", ns2}, Kind: "record", Includes: []Ident{{"NestedDef", ns}, {"Leaf", ns}}})
+	s.Add(&Named{Ident: Ident{"IncCrossChain", ns2}, Kind: "record", Includes: []Ident{{"IncCross", ns2}}, Fields: []Field{
+		{Name: "tailc", Type: P("bool"), Default: sp("true")},
+	}})
+	s.Add(&Named{Ident: Ident{"CrossKeys_ComplexKey", ns2}, Kind: "complexkey", Key: &Ident{"WithDefaults", ns}, Params: &Ident{"NestedDef", ns}})
+	// record-typed fields whose default literal is the empty object or a partial object, on record types with defaults
+	s.Add(&Named{Ident: Ident{"DefHolder", ns}, Kind: "record", Fields: []Field{
+		{Name: "limits", Type: R(ns, "NestedDef"), Default: sp("{}")},
+		{Name: "limits2", Type: R(ns, "NestedDef"), Default: sp(`{"level":9}`)},
+		{Name: "wd", Type: R(ns, "WithDefaults"), Default: sp(`{"req":"r"}`)},
+		{Name: "list", Type: A(R(ns, "NestedDef")), Default: sp(`[{},{"tag":"x"}]`)},
+		{Name: "byKey", Type: M(R(ns, "NestedDef")), Default: sp(`{"k":{}}`)},
+	}})
 	RandomRecords(s, "vt.rnd", ns, seed, nRandom)
 	return s
 }
